@@ -349,7 +349,17 @@ func Now() time.Time {
 	if !active {
 		return time.Now()
 	}
-	offset += int64(time.Millisecond)
+	// usually a millisecond passes between two readings of the clock; in runs
+	// with a coarse clock (a seeded quarter of the runs) a seeded third of the
+	// readings see the same millisecond as the reading before: file names
+	// made in the same millisecond (counter suffix), state files saved at equal
+	// times. The decision depends on the offset only, so Save/Restore keep it
+	// repeatable.
+	if !(seed%4 == 1 && splitmix(seed^uint64(offset))%3 == 0) {
+		offset += int64(time.Millisecond)
+	} else {
+		offset += 1 // still strictly monotonic, same millisecond
+	}
 	return epoch.Add(time.Duration(offset))
 }
 
